@@ -115,7 +115,10 @@ KeyPairs(S) == {p \in S \X S : LexLess(p[1], p[2])}
 KeyTriples(S) == {p \in S \X S \X S : LexLess(p[1], p[2]) /\ LexLess(p[2], p[3])}
 FamKeysA == {Sc("keys", VObj(<<Mem(p[1], One), Mem(p[2], Two)>>), 0, 1, TRUE, FALSE) : p \in KeyPairs(Keys)}
 FamKeysB == {Sc("keys", VObj(<<Mem(p[1], One), Mem(p[2], Two)>>), 0, All, TRUE, FALSE) : p \in KeyPairs(StrsOfLen(1))}
-FamKeysC == {Sc("keys", VObj(<<Mem(p[1], One), Mem(p[2], Two), Mem(p[3], Three)>>), 0, 0, TRUE, FALSE) : p \in KeyTriples(Keys)}
+\* triples: all keys in the thorough tier, the keys that need escapes or order differently in UTF-16 in the quick tier
+KeysQuick3 == { <<>>, Ka, <<97, 34>>, <<34>>, <<92>>, <<0>>, <<10>>, <<233>>, <<64257>>, <<128512>>, <<97, 128512>>, <<64257, 97>> }
+FamKeysC == {Sc("keys", VObj(<<Mem(p[1], One), Mem(p[2], Two), Mem(p[3], Three)>>), 0, 0, TRUE, FALSE) :
+                p \in KeyTriples(IF Quick THEN KeysQuick3 ELSE Keys)}
 
 \* --- family ws: whitespace in every gap ------------------------------------------------
 WsDocs == { VObj(<<Mem(Ka, VArr(<<One, VStr(Kb)>>)), Mem(<<99>>, VObj(<<>>))>>),
